@@ -401,8 +401,8 @@ pub fn main(ctx: &Ctx) {
     campaign(
         ctx,
         Campaign {
-            total_cases: ctx.pick(1_000, 20_000),
-            max_shrink_iters: 200,
+            total_cases: ctx.pick(1_000, 15_000),
+            max_shrink_iters: 100,
             limits: Limits { cpu_s: 30, wall_s: 120, as_bytes: 4 << 30 },
             meta: Meta {
                 rule: "writer + reader in two participants; generated offered/requested deadline (200 ms..2 s), writer lifespan, KEEP_LAST depth 1-2 or KEEP_ALL, max_blocking_time 50 ms..2 s, announcement interval 50 ms..30 s; ops: write / write_w_timestamp in the past / dispose / mail-free pauses around the deadline, lifespan, announcement and lease instants / partition of the reader participant (reliable KEEP_LAST writes block); every Timer::delay request of dust-dds is recorded; non-trivial = the scenario makes some time_until_* event due or overdue (source timestamp older than deadline or lifespan, pause crossing a deadline / lifespan / lease instant) or a write blocked; distinct = hash of the case",
